@@ -288,7 +288,56 @@ theorem tie_aes_read (P : AesPrims) (hW : P.WF) (S : Src σ) (v : Valid σ) (buf
   unfold Gen.AesReaderValid.read Valid.read
   simp only [Id.run, Rs.L.id_pure, toGen, ofNat_eq_zero_iff hrem]
   by_cases h0 : v.dataRemaining = 0
-  · simp [h0, outRead, eraseMsg, toGen]
+  · by_cases hft : v.finalized = true
+    · simp [h0, hft, outRead, eraseMsg]
+    · -- an entry without ciphertext, not yet finalized: the code is read and compared before `Ok(0)`
+      have hf : v.finalized = false := by simpa using hft
+      simp only [h0, hf, decide_true, if_true, Bool.not_false, Bool.false_eq_true, if_false]
+      have h10 : (Rs.vecZeros Gen.AUTH_CODE_LENGTH).length = AUTH_CODE_LENGTH := by decide
+      have hm := readExactAux_readOfA S AUTH_CODE_LENGTH v.inner AUTH_CODE_LENGTH []
+      unfold Rs.L.read_exact
+      rw [h10]
+      unfold readExact
+      have hmac20 := hW.hmac_len v.hmacKey v.hmacMsg
+      have hsl10 : Rs.slice (P.hmac v.hmacKey v.hmacMsg) 0 Gen.AUTH_CODE_LENGTH =
+          some ((P.hmac v.hmacKey v.hmacMsg).take AUTH_CODE_LENGTH) := by
+        unfold Rs.slice
+        have e10 : Gen.AUTH_CODE_LENGTH.toNat = 10 := by decide
+        rw [e10, hmac20]; simp [AUTH_CODE_LENGTH]
+      rcases hx : @Rs.L.readExactAux σ (readOfA S) AUTH_CODE_LENGTH v.inner AUTH_CODE_LENGTH with ⟨r, s2⟩
+      rcases hme : readExactAux S AUTH_CODE_LENGTH v.inner AUTH_CODE_LENGTH [] with ⟨mr, ms⟩
+      rw [hx, hme] at hm
+      cases r with
+      | ok code =>
+        cases mr with
+        | err e => simp [eraseMsg] at hm
+        | panic m => simp [eraseMsg] at hm
+        | ok mcode =>
+          simp [eraseMsg] at hm
+          obtain ⟨hm1, hm2⟩ := hm
+          subst hm1 hm2
+          have hP : @Rs.AesPrims.hmac (primsOf P) = P.hmac := rfl
+          simp only [Rs.Hmac.finalize_reset, hP, hsl10]
+          by_cases heq : (P.hmac v.hmacKey v.hmacMsg).take AUTH_CODE_LENGTH = mcode
+          · simp [heq, Rs.L.bytesEq, outRead, eraseMsg]
+          · simp [heq, Rs.L.bytesEq, outRead, eraseMsg, Rs.ioKind]
+      | err e =>
+        cases mr with
+        | ok c => simp [eraseMsg] at hm
+        | panic m => simp [eraseMsg] at hm
+        | err me =>
+          simp [eraseMsg] at hm
+          obtain ⟨hm1, hm2⟩ := hm
+          subst hm1 hm2
+          simp [outRead, eraseMsg, Rs.IoRes.fail]
+      | panic =>
+        cases mr with
+        | ok c => simp [eraseMsg] at hm
+        | err me => simp [eraseMsg] at hm
+        | panic m =>
+          simp [eraseMsg] at hm
+          subst hm
+          simp [outRead, eraseMsg, Rs.IoRes.fail]
   · simp only [h0, decide_false, Bool.false_eq_true, if_false]
     have hlen : Rs.len buf = UInt64.ofNat buf.length := rfl
     simp only [hlen, Rs.as', Rs.As.cast, id, min_ofNat hrem hbuf]
